@@ -26,7 +26,7 @@ AREA = "Rpc"
 PROP_FILES = ["Property_C08.v"]
 
 HEADER = (vlib.COQ_HEADER + "From Common Require Import Str Res Cases.\n"
-          "From Rpc Require Import Json Models Events CorrC08.\n")
+          "From Rpc Require Import Json Models Events Values CorrC08.\n")
 
 SET_KEYS = ("artists", "composers", "performers")
 CLASSES = ["Ref", "Image", "Artist", "Album", "Track", "TlTrack", "Playlist", "SearchResult"]
@@ -204,12 +204,15 @@ def g_oz(v):
     return g_opt(v, g_z)
 
 
+REVERSE_SETS = [False]  # emit the frozenset fields in reverse canonical order (same set, other list)
+
+
 def g_spec(spec):
     """spec -> Gallina record term (set fields in canonical order)."""
     c = spec["cls"]
 
     def arts(l):
-        return g_list([g_spec(a) for a in sorted(l, key=lambda a: sort_key(spec_json(a)))])
+        return g_list([g_spec(a) for a in sorted(l, key=lambda a: sort_key(spec_json(a)), reverse=REVERSE_SETS[0])])
 
     if c == "Artist":
         return f"(mkArtist {g_ostr(spec['uri'])} {g_ostr(spec['name'])} {g_ostr(spec['sortname'])} {g_ostr(spec['musicbrainz_id'])})"
@@ -909,6 +912,128 @@ def search_hook(M, jsonrpc):
     return hook
 
 
+def perturb(rng, spec):
+    """A copy of spec that differs in exactly one (possibly nested) field."""
+    t = json.loads(json.dumps(spec))
+    objs = [o for _p, o in all_objects(t) if isinstance(o, dict) and "cls" in o]
+    o = rng.choice(objs)
+    fields = [k for k in o if k != "cls"]
+    k = rng.choice(fields)
+    v = o[k]
+    if isinstance(v, str):
+        o[k] = {"album": "artist", "artist": "track", "directory": "album", "playlist": "directory", "track": "playlist"}.get(v, v + "x") \
+            if k == "type" else ("2021" if k == "date" else str(uuid.UUID(int=rng.getrandbits(128))) if k == "musicbrainz_id" else v + "x")
+    elif isinstance(v, bool) or v is None:
+        o[k] = {"date": "2021", "musicbrainz_id": str(uuid.UUID(int=7)), "album": gen_album(rng), "type": "album"}.get(
+            k, 3 if FIELD_KIND.get(k) == "int" else "new")
+    elif isinstance(v, int):
+        o[k] = v + 1
+    elif isinstance(v, list):
+        o[k] = v[:-1] if v else [GENS["Track" if k == "tracks" else "Album" if k == "albums" else "Artist"](rng)]
+    elif isinstance(v, dict):
+        o[k] = None if k == "album" else perturb(rng, v)
+    return t
+
+
+REPLACE_GOOD = {"name": "renamed", "uri": "x:new", "sortname": "s", "genre": "g", "comment": "c", "last_modified": 5, "tlid": 9,
+                "width": 3, "height": 4, "num_tracks": 2, "track_no": 8, "length": -7, "type": "album", "date": "2001-02-03",
+                "musicbrainz_id": "ABCDEF78-1234-5678-1234-567812345678", "artists": [{"name": "new artist"}], "tracks": []}
+REPLACE_BAD = {"name": 5, "uri": [], "last_modified": -1, "tlid": 0, "width": -1, "num_tracks": "x", "type": "nope",
+               "date": "2001-2-3", "musicbrainz_id": "zz", "artists": 5, "tracks": None, "length": "x"}
+
+
+def replace_outcome(m, upd):
+    import pydantic
+
+    try:
+        r = m.replace(**upd)
+    except pydantic.ValidationError:
+        return ("invalid",)
+    except TypeError:
+        return ("typeerror",)
+    return ("ok", canon(r.serialize()))
+
+
+def values_stage(chk, M, specs):
+    """__eq__ / __hash__ / replace() of the real objects against Values.v."""
+    rng = vlib.Rng(chk.seed, "C08-values")
+    eq_rows, rp_rows = [], []
+    if chk.tier == "quick":
+        specs = specs[:20] + specs[20::3]  # the corpus and every third generated value
+    for spec in specs:
+        cls = spec["cls"]
+        m = build(M, spec)
+        # --- == and hash
+        other_cls = {"Artist": "Album", "Album": "Artist", "Playlist": "SearchResult"}.get(cls)
+        cands = [("twin", json.loads(json.dumps(spec))), ("perturbed", perturb(rng, spec))]
+        if other_cls:
+            base = GENS[other_cls](rng)
+            shared = {k: v for k, v in spec.items() if k in ("uri", "name") and k in base}
+            cands.append(("other_class", {**{k: (None if not isinstance(v, list) else []) for k, v in base.items() if k != "cls"},
+                                          **shared, "cls": other_cls}))
+        for label, spec2 in cands:
+            m2 = build(M, spec2)
+            eq = m == m2
+            case = {"cls": cls, "pair": label, "a": spec_json(spec), "b": spec_json(spec2)}
+            chk.count(1, nontrivial_key=f"eq:{label}:" + sort_key(case["a"]) + sort_key(case["b"]))
+            chk.dist(f"eq:{label}:{eq}")
+            if (m2 == m) != eq or not (m == m) or (label == "twin" and not eq):
+                chk.monitor_failure("value_semantics", {"cls": cls, "what": "eq_laws"}, "== is not reflexive/symmetric/by value", case)
+            if eq and hash(m) != hash(m2):
+                chk.monitor_failure("value_semantics", {"cls": cls, "what": "eq_hash"}, "equal models with different hashes", case)
+            REVERSE_SETS[0] = True
+            g2 = g_model(spec2)
+            REVERSE_SETS[0] = False
+            eq_rows.append((case, f"({g_model(spec)}, {g2}, {vlib.g_bool(eq)})"))
+        # --- replace()
+        decoded = type(m).model_validate(m.serialize())
+        fields = [k for k in spec if k != "cls"]
+        good_f = [k for k in fields if k in REPLACE_GOOD and not (cls == "SearchResult" and k == "artists")]
+        bad_f = [k for k in fields if k in REPLACE_BAD]
+        upds = [("none", {})]
+        if good_f:
+            k = rng.choice(good_f)
+            upds.append(("good", {k: REPLACE_GOOD[k]}))
+            upds.append(("to_none", {k: None}))
+        if bad_f:
+            k = rng.choice(bad_f)
+            upds.append(("bad", {k: REPLACE_BAD[k]}))
+        upds.append(("unknown", {rng.choice(["junk", "model", "Name"]): 1}))
+        for origin, inst in (("constructed", m), ("decoded", decoded)):
+            for label, upd in upds:
+                out = replace_outcome(inst, upd)
+                case = {"cls": cls, "origin": origin, "update": label, "upd": upd, "spec": spec_json(spec)}
+                chk.count(1, nontrivial_key=f"replace:{origin}:{label}:" + sort_key(case["spec"]))
+                chk.dist(f"replace:{origin}:{label}:{out[0]}")
+                # the laws of replace() on the real objects
+                if label == "none" and not (out[0] == "ok" and out[1] == canon(m.serialize())):
+                    chk.monitor_failure("replace_law", {"law": "identity", "origin": origin},
+                                        "replace() without arguments does not return an equal model", case)
+                if label == "good" and cls != "TlTrack" or label == "good" and origin == "constructed":
+                    (k, v), = upd.items()
+                    want = canon({**m.serialize(), k: v})
+                    if out[0] == "ok":
+                        got = dict(out[1])
+                        if k in ("musicbrainz_id",):
+                            want[k] = v.lower()
+                        if k == "artists":
+                            want[k] = [{"__model__": "Artist", **a} for a in v]
+                        if got != want:
+                            chk.monitor_failure("replace_law", {"law": "set_get", "origin": origin},
+                                                "replace(field=v) does not return the model with exactly that field changed", case)
+                    elif origin == "constructed":
+                        chk.monitor_failure("replace_law", {"law": "accepts_valid", "origin": origin},
+                                            "replace() rejected a valid field value", case)
+                if label in ("bad", "unknown") and out[0] == "ok" and not (cls == "TlTrack" and label == "unknown"):
+                    chk.monitor_failure("replace_law", {"law": "validates", "origin": origin},
+                                        "replace() accepted an invalid field value / unknown field", case)
+                g_upd = g_list([f"({g_str(k)}, {g_json(v)})" for k, v in upd.items()])
+                rp_rows.append((case, f"({g_model(spec)}, {vlib.g_bool(origin == 'decoded')}, {g_upd}, {g_outcome(out)})"))
+    eval_cases(chk, "eq_hash", "model * model * bool", eq_rows, ["eq_case_ok"], ["model_eqb a b = (a == b), and equal => equal model_hash"])
+    eval_cases(chk, "replace", "model * bool * list (str * json) * option (option json)", rp_rows, ["replace_case_ok"],
+               ["replace tag_was_set m upd ~ m.replace(**upd)"])
+
+
 def load_corpus():
     out = []
     for f in sorted((vlib.VERIF / "corpus" / "C08").glob("*.json")):
@@ -946,10 +1071,12 @@ def run(chk):
     for s in specs[:3]:
         chk.sample({"cls": s["cls"], "serialize": spec_json(s)})
     chk.search_hook = search_hook(M, jsonrpc)
-    digit_table_stage(chk, M)
-    model_stage(chk, M, specs)
-    constraint_stage(chk, M)
-    rpc_stage(chk, M, jsonrpc, specs)
-    malformed_stage(chk, M, jsonrpc)
-    event_stage(chk, M, specs)
-    storage_stage(chk, M, specs)
+    import time
+
+    for name, stage in (("digit_table", lambda: digit_table_stage(chk, M)), ("model", lambda: model_stage(chk, M, specs)),
+                        ("constraint", lambda: constraint_stage(chk, M)), ("rpc", lambda: rpc_stage(chk, M, jsonrpc, specs)),
+                        ("malformed", lambda: malformed_stage(chk, M, jsonrpc)), ("values", lambda: values_stage(chk, M, specs)),
+                        ("event", lambda: event_stage(chk, M, specs)), ("storage", lambda: storage_stage(chk, M, specs))):
+        t0 = time.time()
+        stage()
+        chk.notes.append(f"stage {name}: {time.time() - t0:.1f} s")
